@@ -1,6 +1,7 @@
 """C17 - BUILD numbers grow numerically and lexically forever."""
 from campaigns.sweep import Chain, ReleaseJobs
 from campaigns.testcmd import TestCmd
+from campaigns.unquoted import Unquoted
 
 PROPERTY = "C17"
 LEVEL = "exploration"
@@ -15,7 +16,8 @@ RULE = ("CHAIN: chains of `bumpver test`, each step starting from the version th
         "expansion / maximum events.")
 ASSUMPTIONS = ["lexid successor re-implemented from the lexid README table", "ids of 8+ digits only via chains"]
 COMPONENTS = {"bumpver cli test, v2version, lexid": "real", "clock": "simulated"}
-CAMPAIGNS = [Chain(), ReleaseJobs(), TestCmd("C17", quick=5000, thorough=100000, sv_rate=0.05)]
+CAMPAIGNS = [Chain(), ReleaseJobs(), TestCmd("C17", quick=5000, thorough=100000, sv_rate=0.05),
+             Unquoted("C17", quick=300, thorough=6000)]
 
 
 def sanity_gate(tier, total):
